@@ -1952,7 +1952,9 @@ func (w *Walker) walkField(ref int, skipFor SkipVisitors) {
 	}
 
 	if w.document.Fields[ref].HasDirectives {
-		for _, i := range w.document.Fields[ref].Directives.Refs {
+		// a visitor may remove the directive it is visiting from the node: range over a copy,
+		// removal shifts the list the node holds and the next directive would be left out
+		for _, i := range slices.Clone(w.document.Fields[ref].Directives.Refs) {
 			w.walkDirective(i, skipFor)
 			if w.stop {
 				return
@@ -2150,7 +2152,9 @@ func (w *Walker) walkFragmentSpread(ref int, skipFor SkipVisitors) {
 	}
 
 	if w.document.FragmentSpreads[ref].HasDirectives {
-		for _, i := range w.document.FragmentSpreads[ref].Directives.Refs {
+		// a visitor may remove the directive it is visiting from the node: range over a copy,
+		// removal shifts the list the node holds and the next directive would be left out
+		for _, i := range slices.Clone(w.document.FragmentSpreads[ref].Directives.Refs) {
 			w.walkDirective(i, skipFor)
 		}
 	}
@@ -2219,7 +2223,9 @@ func (w *Walker) walkInlineFragment(ref int, skipFor SkipVisitors) {
 	}
 
 	if w.document.InlineFragments[ref].HasDirectives {
-		for _, i := range w.document.InlineFragments[ref].Directives.Refs {
+		// a visitor may remove the directive it is visiting from the node: range over a copy,
+		// removal shifts the list the node holds and the next directive would be left out
+		for _, i := range slices.Clone(w.document.InlineFragments[ref].Directives.Refs) {
 			w.walkDirective(i, skipFor)
 		}
 	}
